@@ -174,6 +174,10 @@ static int consume_int(const char *str, uint32_t *p_index, int *p_val)
         } else if ('0' <= c && c <= '9') {
             /* Value. */
             flag = 'v';
+            if (val > (INT_MAX - (int)(c - '0')) / 10) {
+                /* The value is too big to be represented: wrong input. */
+                return 0;
+            }
             val = val * 10 + (int)(c - '0');
         } else {
             /* Encounters a symbol. */
